@@ -86,15 +86,16 @@ impl AbstractObjectList {
             object.set_value(value, offset)
         } else {
             // There may be more than one object that the pointer may write to.
-            // We merge-write to all possible targets
+            // We merge-write to all possible targets.
+            // A target without a memory object is reported, but it must not hide the other targets.
+            let mut result = Ok(());
             for (id, offset) in pointer.get_relative_values() {
-                let object = self
-                    .objects
-                    .get_mut(id)
-                    .ok_or_else(|| anyhow!("Abstract object does not exist."))?;
-                object.merge_value(value.clone(), offset);
+                match self.objects.get_mut(id) {
+                    Some(object) => object.merge_value(value.clone(), offset),
+                    None => result = Err(anyhow!("Abstract object does not exist.")),
+                }
             }
-            Ok(())
+            result
         }
     }
 
